@@ -57,6 +57,14 @@ PROPS = {
                      "emptyW (proved), every live automaton re-read after every step; non-trivial = some product or witness "
                      "non-empty",
                 assumptions=PROOF_ASSUME),
+    "C16": dict(level="proof", kinds=[("lts", 1)], n=dict(quick=4000, thorough=80000, search=4000),
+                rule="LTSs with 1–8 states (12 %: 13–30 states so that the engine's counter rows, block splits and remove "
+                     "lists are exercised), 1–4 labels, parallel edges, isolated states, labels with one edge; random "
+                     "partitions into non-empty blocks with random preorders (reflexive-transitive closures) on the blocks; all "
+                     "three computeSimulation overloads and several output sizes; exact equality with the greatest simulation "
+                     "inside the initial relation computed by naive refinement; non-trivial = result strictly between identity "
+                     "and full",
+                assumptions=PROOF_ASSUME + ["the partition-relation engine itself is not mirrored (950 lines of pointer code without observable internal state): it is tied to the proved reference by input/output behaviour only"]),
     "C14": dict(level="proof", kinds=[("rename", 1)], n=dict(quick=3000, thorough=60000, search=4000),
                 rule="ReindexStates (functor / functor without final states / into an existing destination / weak translator / "
                      "fresh translator), CollapseStates, TranslateSymbols with injective, merging, identity and sparse maps, "
@@ -104,6 +112,8 @@ def nontrivial(prop, r):
         return "emptyA=0 emptyC=0" in v
     if prop == "C14":
         return "inj=0" in v
+    if prop == "C16":
+        return "between=1" in v
     if prop == "C09":
         return "emptyA=0" in v
     if prop == "C10":
